@@ -15,6 +15,9 @@ def check(run):
     ec.run_family(run, 'C01-except', 'Q_C01exc', 'R_w3N', maxA=2 if quick else 3, hdrmodes=(False, True))
     ec.run_family(run, 'C01-join', 'Q_C01join', 'R_w2' if not quick else 'R_q4', recsB='R_w2' if not quick else 'R_q4', maxA=2, maxB=2 if quick else 3)
     ec.run_family(run, 'C01-join-pairs', 'Q_C04pairs', 'R_w2N' if not quick else 'R_w2', recsB='R_w2', maxA=2, maxB=2)
+    if not quick:
+        # the unrestricted cross product (item lists of <= 3, joins, order, distinct, top together) over bigger tables: sampled
+        ec.run_family(run, 'C01-cross-product', 'Q_MIX', 'R_2x2', recsB='R_w2', maxA=4, maxB=3, hdrmodes=(False, True), simulate=8000)
     run.exhaustive = True
 
 
